@@ -206,7 +206,11 @@ func (h *c23H) startBlock() string {
 	next := bookkeeping.MakeBlock(hdr).BlockHeader
 	next.TimeStamp = hdr.TimeStamp + 1
 	h.tr = &c23Tracer{}
-	ev, err := eval.StartEvaluator(h.l, next, eval.EvaluatorOptions{Generate: true, Validate: true, Tracer: h.tr})
+	opts := eval.EvaluatorOptions{Generate: true, Validate: true, Tracer: h.tr}
+	if os.Getenv("VERIF_C23_NOTRACER") != "" { // debugging aid: rule the tracer out as the cause of an observation
+		opts.Tracer = nil
+	}
+	ev, err := eval.StartEvaluator(h.l, next, opts)
 	if err != nil {
 		return "block-error " + err.Error()
 	}
@@ -962,6 +966,7 @@ type c23Gen struct {
 	apps  []*c23GApp
 	keys  []string
 	names []string
+	multi bool // the group being generated has more than one application call
 }
 
 func (g *c23Gen) pick(xs ...uint64) uint64 { return xs[g.r.Intn(len(xs))] }
@@ -1153,8 +1158,10 @@ func (g *c23Gen) script(self *c23GApp, snd uint64, accts []uint64, oc string, ma
 	used := map[string]bool{}
 	n := g.r.Intn(maxLen + 1)
 	targets := append([]uint64{snd}, accts...)
-	if g.r.Chance(4) {
-		targets = append(targets, g.user()) // maybe unavailable
+	if g.r.Chance(4) && !g.multi {
+		// maybe unavailable.  Only in single-call groups: with several calls in a group the accounts and locals of the
+		// other members are shared (resources.go), which the model does not follow.
+		targets = append(targets, g.user())
 	}
 	anyOpted := oc == "optin"
 	for _, t := range targets {
@@ -1354,6 +1361,11 @@ func (g *c23Gen) genCall(self *c23GApp) string {
 	if oc == "clear" {
 		return fmt.Sprintf("call,%d,%d,clear,-,-,-", snd, self.ord)
 	}
+	if oc == "optin" && snd == self.creator {
+		// a creator that opts in to its own application and closes out makes later app-params writes of the same block
+		// panic in the evaluator (corpus/C23/observations): not C23's subject, and it would mask the correspondence
+		oc = "noop"
+	}
 	accts, as := g.acctList(self, snd)
 	script, used := g.script(self, snd, accts, oc, 7)
 	refs := c23Fit(g.refs(self.ord, used, script, 7), self.ord, len(accts))
@@ -1363,6 +1375,9 @@ func (g *c23Gen) genCall(self *c23GApp) string {
 // directed scenarios for the rules the property names (each returns the groups of one scenario)
 func (g *c23Gen) scenario(a *c23GApp) []string {
 	snd := g.user()
+	for snd == a.creator { // see genCall: creators do not opt in to their own application
+		snd = g.user()
+	}
 	one := func(script, refs string) string {
 		return fmt.Sprintf("group call,%d,%d,noop,-,%s,%s", snd, a.ord, refs, script)
 	}
@@ -1615,6 +1630,7 @@ func (g *c23Gen) runCase(out *vh.Out) {
 				}
 				var txs []string
 				seen := map[uint64]bool{}
+				g.multi = n > 1
 				for j := 0; j < n; j++ {
 					a := alive[g.r.Intn(len(alive))]
 					if g.r.Chance(2) {
